@@ -95,6 +95,18 @@ constexpr nterm<std::vector<int>> vec("vec"); constexpr nterm<int> cnt("cnt"); c
 static auto make_v() { return parser(vec, terms('1', '2', '3'), nterms(vec, cnt), rules(vec(cnt, cnt), cnt('1') >= val(1), cnt('2') >= val(2), cnt('3') >= val(3))); }
 static auto make_j() { return parser(jtop, terms('1', '2'), nterms(jtop, jatom), rules(jtop(jatom), jatom('1') >= [](skip) { return J(1); }, jatom('2', jatom) >= [](skip, J&& j) { return J(std::move(j)); })); }
 
+// fifth grammar: functors whose result is an lvalue reference to an object that outlives the reduction (a symbol table in the context, a static table):
+// the left-side value is constructed FROM that object (a copy); the object itself must be left alone, so a second parse sees the same table
+struct Env { std::vector<int> a{1, 2, 3}, b{4}; };
+static std::vector<int> g_static_tab{7, 7};
+constexpr nterm<std::vector<int>> vexpr("vexpr");
+static std::vector<int>& lookup(Env& e, char c) { return c == 'a' ? e.a : e.b; }
+static auto make_e() { return parser(vexpr, terms('a', 'b', 's', '+'), nterms(vexpr), rules(
+    vexpr('a') >>= [](Env& e, char c) -> std::vector<int>& { return lookup(e, c); },
+    vexpr('b') >>= [](Env& e, char c) -> std::vector<int>& { return lookup(e, c); },
+    vexpr('s') >= [](skip) -> std::vector<int>& { return g_static_tab; },
+    vexpr(vexpr, '+', vexpr) >= [](std::vector<int>&& x, skip, std::vector<int>&& y) { x.insert(x.end(), y.begin(), y.end()); return std::move(x); })); }
+
 int main(int argc, char** argv) {
     int n = argc > 1 ? std::atoi(argv[1]) : 5;
     static const auto p = make_p();
@@ -151,6 +163,25 @@ int main(int argc, char** argv) {
             if (!thrown.empty()) { ++fails; if (first.empty()) first = "deep right recursion, " + std::to_string(len) + " tokens: parse threw " + thrown; }
             else if (!r || *r != want) { ++fails; if (first.empty()) first = "deep right recursion, " + std::to_string(len) + " tokens: the functors did not receive their own children's values (result differs from the reversed input" + (r ? " at position " + std::to_string(std::mismatch(r->begin(), r->end(), want.begin(), want.end()).first - r->begin()) : std::string(", empty")) + ")"; }
             else ++accepted;
+        }
+    }
+    {   // grammar 5 on every input up to length 5, each parsed twice with the same context
+        static const auto e = make_e();
+        std::vector<std::string> in5{""}; for (size_t lo = 0, l = 0; l < 5; ++l) { size_t hi = in5.size(); for (size_t i = lo; i < hi; ++i) for (char c : {'a', 'b', 's', '+'}) in5.push_back(in5[i] + c); lo = hi; }
+        for (const std::string& in : in5) {
+            ++cases; ++checks;
+            bool wok = in.size() % 2 == 1; std::vector<int> want;
+            for (size_t i = 0; i < in.size() && wok; ++i) { if (i % 2 == 1) { if (in[i] != '+') wok = false; continue; } if (in[i] == 'a') want.insert(want.end(), {1, 2, 3}); else if (in[i] == 'b') want.push_back(4); else if (in[i] == 's') want.insert(want.end(), {7, 7}); else wok = false; }
+            Env env; g_static_tab = {7, 7};
+            auto r1 = e.context_parse(env, string_buffer(std::string(in)));
+            auto r2 = e.context_parse(env, string_buffer(std::string(in)));
+            auto show = [](const std::optional<std::vector<int>>& r) { if (!r) return std::string("empty"); std::string o = "{"; for (int x : *r) o += std::to_string(x) + ","; return o + "}"; };
+            std::string problem;
+            if (r1.has_value() != wok || (wok && *r1 != want)) problem = "first parse gives " + show(r1) + ", the derivation evaluates to " + (wok ? show(want) : std::string("empty"));
+            else if (r2 != r1) problem = "the second parse of the same input with the same context gives " + show(r2) + ", the first gave " + show(r1);
+            else if (env.a != std::vector<int>{1, 2, 3} || env.b != std::vector<int>{4} || g_static_tab != std::vector<int>{7, 7}) problem = "an object a functor returned by reference (symbol table entry) was modified by the library";
+            if (!problem.empty()) { ++fails; if (first.empty()) first = "grammar 5 (functors returning lvalue references) input '" + in + "': " + problem; }
+            if (wok) ++accepted;
         }
     }
     {   // grammar 4 on every input up to length 3
